@@ -575,6 +575,13 @@ class ViewsScenario(OpticsBase):
                 kw = {'amplitude': '@' + amp, 'opd': '@' + opd, 'pixelscale': ph['dx'], 'focal_length': ph['f'] * (1 if j == 0 else rng.choice([1, 1.5]))}
                 if rng.random() < 0.85 or k > 1:
                     kw['mask'] = '@' + m
+                else:
+                    # no explicit mask: lentil derives it from the non-zero part of the amplitude, so give the amplitude a shape
+                    S_ = world['shapes'][sname]
+                    az = b.A({'kind': 'mul', 'x': {'kind': 'uniform', 'shape': sname, 'lo': 0.4, 'hi': 1.0, 'seed': b.sd()},
+                              'y': {'kind': rng.choice(['disk', 'rect']), 'shape': sname, 'radius': min(S_) / 2.0 - 0.3,
+                                    'half': [max(1, S_[0] // 2 - 1), max(1, S_[1] // 2 - 2)], 'dr': rng.choice([0, 1]), 'dc': rng.choice([0, -1])}})
+                    kw['amplitude'] = '@' + az
                 if rng.random() < 0.1:
                     kw['opd'] = rng.choice([0.0, 1e-7])
                 p = b.E('Pupil', None, kw, tag='p')
